@@ -908,11 +908,31 @@ def neighbours(rng, cfg, ops):
         yield cfg, gen_ops(rng, cfg, rng.randint(3, 16))
 
 
-def check_cases(res: Result, cases, rng, in_scope: bool = True) -> None:
+_POOL = None
+
+
+def _evaluate_pair(case):
+    common.quiet_gemseo()
+    return evaluate(case[0], case[1])
+
+
+def evaluate_many(cases, parallel: bool):
+    """Implementation side of many cases; in the thorough tier spread over processes (the cases are
+    generated beforehand from the single PRNG: the result does not depend on the scheduling)."""
+    global _POOL
+    if not parallel or len(cases) < 64:
+        return [evaluate(cfg, ops) for cfg, ops in cases]
+    if _POOL is None:
+        import multiprocessing
+
+        _POOL = multiprocessing.get_context("fork").Pool(min(12, os.cpu_count() or 1))
+    return _POOL.map(_evaluate_pair, cases, chunksize=16)
+
+
+def check_cases(res: Result, cases, rng, in_scope: bool = True, parallel: bool = False) -> None:
     """Run the cases on the implementation, the model (one driver call) and the oracle."""
     runs = []
-    for cfg, ops in cases:
-        run, bad = evaluate(cfg, ops)
+    for (cfg, ops), (run, bad) in zip(cases, evaluate_many(cases, parallel)):
         runs.append((cfg, ops, run, bad))
     lines: list[str] = []
     for _cfg, _ops, run, _bad in runs:
@@ -1055,8 +1075,8 @@ def run(ctx) -> Result:
     corpus = load_corpus()
     check_cases(res, corpus, rng)
     res.count("corpus", len(corpus))
-    n = 6000 if ctx.thorough else 450
-    batch_size = 150
+    n = 8000 if ctx.thorough else 900
+    batch_size = 1000 if ctx.thorough else 150
     done = 0
     import time
 
@@ -1064,23 +1084,28 @@ def run(ctx) -> Result:
         batch = []
         for _ in range(min(batch_size, n - done)):
             batch.append(gen_case(rng))
-        check_cases(res, batch, rng)
+        check_cases(res, batch, rng, parallel=ctx.thorough)
         done += len(batch)
     # out-of-scope probe stream (never a violation)
     probe = []
     for _ in range(n // 10):
         cfg = gen_cfg(rng)
         probe.append((cfg, gen_ops(rng, cfg, rng.randint(3, 16), in_scope=False)))
-    check_cases(res, probe, rng, in_scope=False)
+    check_cases(res, probe, rng, in_scope=False, parallel=ctx.thorough)
     if ctx.thorough:
         for kind in ("simple", "mem", "shm", "hdf"):
             for tol in ("0", "1/8"):
                 if time.time() > ctx.deadline:
                     break
                 cases = list(exhaustive_small(kind, tol))
-                for i in range(0, len(cases), 400):
-                    check_cases(res, cases[i : i + 400], rng)
+                for i in range(0, len(cases), 2400):
+                    check_cases(res, cases[i : i + 2400], rng, parallel=True)
                 res.count(f"exhaustive-{kind}-{tol}", len(cases))
+        res.exhaustive = True
+        res.notes.append("exhaustive part: all histories of <= 4 operations over {execute/linearize on 2 arrays, in-place "
+                         "modification, clear, reopen} for SimpleCache, MemoryFullCache (shared or not), HDF5Cache, t in {0, 1/8}")
+    if _POOL is not None:
+        _POOL.close()
     return res
 
 
